@@ -405,3 +405,12 @@ func chanClosedGhost(t types.Type) string {
 	}
 	return "chan.closed.any"
 }
+
+func chanCapGhost(t types.Type) string {
+	if t != nil {
+		if c, ok := t.Underlying().(*types.Chan); ok {
+			return "chan.cap." + typeKey(c.Elem())
+		}
+	}
+	return "chan.cap.any"
+}
